@@ -38,7 +38,7 @@ class SymEntry:
         return snp.ndarray(o, rnp.uint32, SInt(self.n) if not isinstance(self.n, int) else None)
 
 
-def sym_dim(eng, C, tag, N, cats, common, extra=(), cap=2, present=None, min_len=1):
+def sym_dim(eng, C, tag, N, cats, common, extra=(), cap=2, present=None, min_len=1, lens=None):
     """A well-formed symbolic index of shape (N,)+extra over categories `cats` (common excluded).
     `present`: dict key -> bool (structure); absent keys have no entry.  Returns (iindex, entries)."""
     entries = []
@@ -53,8 +53,12 @@ def sym_dim(eng, C, tag, N, cats, common, extra=(), cap=2, present=None, min_len
                 continue
             nm = "%s_%s" % (tag, "_".join(str(k) for k in key))
             n = z3.Int("n_" + nm)
-            eng.assume(n >= min_len, n <= cap)
-            xs = [z3.Int("x_%s_%d" % (nm, j)) for j in range(cap)]
+            kcap = cap if lens is None or key not in lens else lens[key]
+            if lens is not None and key in lens:
+                eng.assume(n == kcap)           # an entry of exactly this many rows (skewed-length configurations)
+            else:
+                eng.assume(n >= min_len, n <= cap)
+            xs = [z3.Int("x_%s_%d" % (nm, j)) for j in range(kcap)]
             for j, x in enumerate(xs):
                 eng.assume(z3.Implies(j < n, z3.And(x >= 0, x < N)))
                 if j:
